@@ -48,3 +48,11 @@ mod rustcrypto_impl;
 pub use self::rustcrypto_impl::{
     ChaCha12, ChaCha20, ChaCha8, Ietf, XChaCha12, XChaCha20, XChaCha8,
 };
+
+/// Verification hook (off unless built with `--cfg cryptocorrosion_verif`): makes crate-private items
+/// reachable from the external contract harnesses in $CRYPTOCORROSION_VERIF_DIR. Add-only.
+#[cfg(cryptocorrosion_verif)]
+#[doc(hidden)]
+pub mod verif_incrate {
+    include!(concat!(env!("CRYPTOCORROSION_VERIF_DIR"), "/incrate/c2_chacha.rs"));
+}
